@@ -102,3 +102,20 @@ Definition propfail_C20 (cs : list scan_case) : list nat :=
 (* cases whose views are not well-formed (duplicate node names): expected none; reported as a generator error *)
 Definition illformed_scan (cs : list scan_case) : list nat :=
   indices_where (fun c => negb (wf_snapshot (sc_snap c))) cs 0.
+
+(* ---------- known finding K3 (C19): a not-in-group answer on the FORCE-removal path is only logged ---------- *)
+(* cases in which the model's scan of some group reached the force reaper, the cloud provider answered not-in-group
+   there, and the observed RunOnce did not stop with that error *)
+Definition force_notingroup (s : snapshot) (g : group_in) : bool :=
+  let x := mk_ctx s g in
+  match try_delete_nodes (x_env x) (x_asg x) (force_candidates (x_dry x) (x_pods x) (c_forced (x_cls x))) with
+  | (_, Some ErrNotInGroup, _) => true
+  | _ => false
+  end.
+
+Definition known_K3 (cs : list scan_case) : list nat :=
+  indices_where (fun c =>
+    negb (sc_out c =? 2) &&
+    existsb (fun nr => mem_id T_force_err (r_tags (snd nr)) &&
+                       match find_group (sc_snap c) (fst nr) with Some g => force_notingroup (sc_snap c) g | None => false end)
+            (fst (run_once (sc_snap c)))) cs 0.
